@@ -309,9 +309,12 @@ impl Parse for TimelineDurationArgument {
         } else {
             None
         };
+        let value: NumericLit = input.parse()?;
+        // Reject a bad unit here, even if a later duration argument would replace this one.
+        seconds_divisor(&value)?;
         Ok(Self {
             _prefix: prefix,
-            value: input.parse()?,
+            value,
         })
     }
 }
@@ -324,9 +327,13 @@ pub struct TimelineDelayArgument {
 
 impl Parse for TimelineDelayArgument {
     fn parse(input: ParseStream) -> syn::Result<Self> {
+        let prefix = input.parse()?;
+        let value: NumericLit = input.parse()?;
+        // Reject a bad unit here, even if a later delay argument would replace this one.
+        seconds_divisor(&value)?;
         Ok(Self {
-            _prefix: input.parse()?,
-            value: input.parse()?,
+            _prefix: prefix,
+            value,
         })
     }
 }
@@ -384,6 +391,8 @@ impl Parse for KeyframeRepeatArgument {
         } else {
             let lit = input.parse::<Lit>()?;
             if let Lit::Int(lit_int) = lit {
+                // Reject an out-of-range count here, even if a later repeat argument replaces it.
+                lit_int.base10_parse::<u32>()?;
                 Ok(Self::Fixed(lit_int))
             } else {
                 Err(Error::new(
